@@ -18,14 +18,15 @@ import (
 
 // The argument universe shared by the file generator and the session generators.
 var (
-	EditPaths = []string{"a.com/x", "b.com/y", "c.com/z/v2", "d.com/w"}
+	EditPaths = []string{"a.com/x", "b.com/y", "c.com/z/v2", "d.com/w", "require"} // the last one is spelled like a directive keyword
 	// three canonical versions per path, matching the path's major version;
 	// lexical and semantic order differ inside a.com/x and c.com/z/v2.
 	EditVers = map[string][]string{
 		"a.com/x":    {"v1.2.3", "v1.10.0", "v1.0.0"},
 		"b.com/y":    {"v1.0.0", "v0.1.0", "v1.1.0-pre"},
 		"c.com/z/v2": {"v2.10.0", "v2.1.0", "v2.0.0"},
-		"d.com/w":    {"v0.0.1", "v1.0.0", "v2.0.0+incompatible"},
+		"d.com/w":    {"v0.0.1", "v1.0.0", "v2.0.0+incompatible", "v1.0.0+incompatible"}, // the last differs from the second by its build tag only
+		"require":    {"v1.0.0", "v1.1.0", "v0.5.0"},
 	}
 	EditRetracts   = [][2]string{{"v1.0.0", "v1.0.0"}, {"v1.10.0", "v1.10.0"}, {"v1.2.0", "v1.2.0"}, {"v1.1.0", "v1.2.0"}, {"v1.1.0", "v1.3.0"}, {"v0.9.0", "v0.9.5"}}
 	EditTools      = []string{"a.com/x/cmd/t", "b.com/y/t2", "d.com/w/cmd/q"}
@@ -189,11 +190,20 @@ func (g *editGen) group(verb string, n int, bare bool, mk func() editSpec) {
 				}
 			}
 		}
+		// the marker is the word "indirect" alone, or "indirect;" followed by white space and more text;
+		// the white space around it is usually one blank, now and then something else
+		lead, sep := " ", " "
+		if r.IntN(6) == 0 {
+			lead = Pick(r, []string{"", "\t", "  ", "\u00a0", " \t"})
+		}
+		if r.IntN(6) == 0 {
+			sep = Pick(r, []string{"\t", "  ", "\u00a0", " \t", "\u3000"})
+		}
 		switch {
 		case sp.indirect && l.TagS:
-			fmt.Fprintf(&g.b, " // indirect; %s", note)
+			fmt.Fprintf(&g.b, " //%sindirect;%s%s", lead, sep, note)
 		case sp.indirect:
-			g.b.WriteString(" // indirect")
+			g.b.WriteString(" //" + lead + "indirect")
 		case l.TagS:
 			fmt.Fprintf(&g.b, " // %s", note)
 		}
